@@ -112,3 +112,40 @@ CHECKS["C21"] = dict(
     bounds="UIntPoly: all length pairs up to 3x3 terms with symbolic coefficients 0<=c<=7 (quick; thorough: -15..15 all signs and zeros) against the schoolbook convolution (Kronecker substitution is executed symbolically); add/sub/neg/eval/diff/eq on 3-term polynomials |c|<=1000; pow up to 3 and exact division (p*q)/q on 2-term polynomials; from_basic/as_symbolic round trip; URatPoly products and sums with denominators 1..3",
     outside=["more than 3 terms", "UExprPoly", "multi-limb coefficients"],
 )
+
+CHECKS["C33"] = dict(
+    src="C33.cpp", level="model_checking",
+    entries=[dict(name="harness_c33", quick={"nops": 1, "nlims": 20}, thorough={"nops": 2, "nlims": 20})],
+    anchors=["SymEngine::Sieve::_extend", "SymEngine::Sieve::generate_primes", "SymEngine::Sieve::iterator::next_prime", "SymEngine::Sieve::clear"],
+    bounds="call histories of 1 (thorough 2) operations from {generate_primes(L), iterator(L or unlimited) + 1/8/15 next_prime, clear, set_clear(b)} followed by a final generate_primes(L'); L from 20 boundary-biased limits <= 120; segment size set through the private static to 4, 8 or 16 bits so that segment boundaries fall inside the limit range; initial set_clear flag both ways; every memory access checked by the engine",
+    outside=["limits above 120", "the public segment unit of 8192 bits (needs limits above 16384)"],
+    technique="bounded symbolic execution of LLVM IR of the real code (choices enumerated as paths, memory monitors) + SMT for the choice structure",
+)
+
+CHECKS["C23"] = dict(
+    src="C23.cpp", level="model_checking",
+    entries=[
+        dict(name="harness_c23_ring", quick={"nprimes": 3, "nmax": 3}, thorough={"nprimes": 5, "nmax": 4}),
+        dict(name="harness_c23_div", quick={"nprimes": 3, "nmax": 3}, thorough={"nprimes": 4, "nmax": 4}),
+        dict(name="harness_c23_factor", quick={"nprimes": 3, "fmax": 2}, thorough={"nprimes": 4, "fmax": 3}),
+    ],
+    anchors=["SymEngine::GaloisFieldDict::gf_div", "SymEngine::GaloisFieldDict::mul", "SymEngine::GaloisFieldDict::gf_gcd", "SymEngine::GaloisFieldDict::gf_factor", "SymEngine::GaloisFieldDict::gf_monic"],
+    bounds="p in {2,3,5} (thorough adds 7, 11), coefficient vectors of length <= 3 (4) with symbolic entries in [0,p); ring operations, division with remainder, gcd, monic, powers <= 3, evaluation at a symbolic point, derivative; factorisation of polynomials of degree <= 2 (3): product of factors, monic, irreducible (no root, degree <= 3); mp_urandomm returns a symbolic value so the randomised algorithms are checked for every random choice",
+    outside=["degree above 3", "primes above 11", "gf_compose_mod, gf_trace_map, lcm"],
+)
+
+CHECKS["C32"] = dict(
+    src="C32.cpp", level="model_checking",
+    entries=[
+        dict(name="harness_c32_gcd", quick={"B": 10}, thorough={"B": 30}),
+        dict(name="harness_c32_divmod", quick={"B": 1000}, thorough={"B": 1000000}),
+        dict(name="harness_c32_modular", quick={"M": 10}, thorough={"M": 24}),
+        dict(name="harness_c32_crt", quick={}, thorough={}),
+        dict(name="harness_c32_multiplicative", quick={"N": 24}, thorough={"N": 60}),
+        dict(name="harness_c32_symbols", quick={"N": 15}, thorough={"N": 35}),
+        dict(name="harness_c32_sequences", quick={"nseq": 30}, thorough={"nseq": 90}),
+    ],
+    anchors=["SymEngine::gcd_ext", "SymEngine::quotient_mod_f", "SymEngine::mod_inverse", "SymEngine::crt", "SymEngine::nthroot_mod_list", "SymEngine::totient", "SymEngine::carmichael", "SymEngine::primitive_root", "SymEngine::jacobi", "SymEngine::kronecker", "SymEngine::fibonacci", "SymEngine::binomial", "SymEngine::nextprime", "SymEngine::mobius"],
+    bounds="gcd/lcm/gcd_ext |a|,|b|<=10 (30) with a symbolic common-divisor candidate; quotient/mod both conventions |n|<=1000 (1e6) symbolic, 0<|d|<=12; mod_inverse, nthroot_mod(_list) (n<=4), is_nth_residue for m<=10 (24); crt with two moduli <=9; totient, carmichael, mobius, prime factors, multiplicative_order, primitive_root for n<=24 (60); Legendre/Jacobi/Kronecker, quadratic residues for n<=15 (35); Fibonacci/Lucas/factorial recurrences n<=31 (91), Pascal's rule incl. negative tops, nextprime/probab_prime_p up to 200; definitions evaluated by brute force in the harness",
+    outside=["bernoulli, harmonic, factor_* heuristics (pollard, lehman), polygonal numbers, perfect-power decomposition, primepi, primorial, mertens", "large arguments"],
+)
